@@ -1,6 +1,7 @@
 package main
 
 import (
+	"bytes"
 	"context"
 	"crypto/tls"
 	"fmt"
@@ -154,10 +155,11 @@ func runTLS(cs *caseT, preChunks []int, msgs [][]byte) (o *obsT, handshake strin
 					}
 				}
 			}()
-			for _, m := range msgs {
+			for k, m := range msgs {
 				if conn.over() {
 					break
 				}
+				conn.setTurn(turnBase + k + 1)
 				if _, err := tc.Write(m); err != nil {
 					break
 				}
@@ -289,6 +291,24 @@ func runC11(c *runCfg) error {
 		tcfg := cfg
 		tcfg.tls = true
 		emit("tls", tcfg, sslRequest(), nil, msgs, "")
+		if i%5 == 0 {
+			// the session inside TLS obeys the configured limit, not the size of a TLS record or of any
+			// buffer: messages of 16 KiB .. 64 KiB under the default and under a 100000-byte limit
+			big := tcfg
+			big.limit = []int{0, 100000}[(i/5)%2]
+			bm := [][]byte{msgs[0]}
+			if cfg.auth != "none" {
+				bm = append(bm, mPassword([]byte("secret")))
+			}
+			for _, n := range []int{16383, 16384, 16385, 20000, 40000, 65536} {
+				bm = append(bm, mQuery(bytes.Repeat([]byte("x"), n)))
+			}
+			bm = append(bm, mParse(nil, bytes.Repeat([]byte("y"), 17000), 0), mBind(nil, nil, nil, []bindP{{v: bytes.Repeat([]byte("p"), 33000)}}, nil), mSync(), mQuery([]byte("select 1")), mTerminate())
+			emit("tls_big", big, sslRequest(), nil, bm, "")
+			nb := big
+			nb.tls = false
+			emit("no_certs_big", nb, sslRequest(), nil, bm, "")
+		}
 		// stuffed plaintext in the same segment as the SSLRequest / in a later segment
 		emit("stuffed_same", tcfg, cat(sslRequest(), stuffed), nil, msgs, "")
 		emit("stuffed_later", tcfg, cat(sslRequest(), stuffed), []int{8}, msgs, "")
